@@ -169,7 +169,7 @@ pub fn run_job(job: BlkJob) -> Vec<String> {
                         Some(bw) => {
                             let h = step["h"].as_u64().unwrap_or(0) as u32;
                             ev["h"] = json!(h);
-                            bw.new_block(&BlockAdded { height: h }).await;
+                            { let blk = BlockAdded { height: h }; crate::await_if_future!(bw.new_block(&blk)); }
                             settle().await;
                         }
                         None => applied = false,
@@ -230,7 +230,7 @@ pub fn run_mt(run: u64, rounds: u64, workers: usize, seed: u64) -> Vec<String> {
             let mut js = Vec::new();
             for x in hs.clone() {
                 let b = Arc::clone(&bw);
-                js.push(tokio::spawn(async move { b.new_block(&BlockAdded { height: x }).await }));
+                js.push(tokio::spawn(async move { let blk = BlockAdded { height: x }; crate::await_if_future!(b.new_block(&blk)) }));
             }
             for j in js {
                 let _ = j.await;
